@@ -1,5 +1,5 @@
 """Rules over the voting engines (shared by C05, C12, C17, C02)."""
-from lib import (all_closures, ref_targets, ExprBuilder, as_cmp, closure_aggregates, closure_args_of_call, orient, path_conditions,
+from lib import (Cond, count_on_paths, all_closures, ref_targets, ExprBuilder, as_cmp, closure_aggregates, closure_args_of_call, orient, path_conditions,
                  result_assignments, upvar_expr)
 from mir import FLIP, norm
 
@@ -43,7 +43,7 @@ def _upvar_uses(cb, k):
     """classify the uses of upvar k inside closure body cb: returns dict(writes=[ln], cmp_reads=[ln], other_reads=[ln],
     nested=[(closure body, k2)])"""
     eb = ExprBuilder(cb)
-    res = {'writes': [], 'cmp_reads': [], 'other_reads': [], 'nested': []}
+    res = {'writes': [], 'cmp_reads': [], 'other_reads': [], 'nested': [], 'write_blocks': []}
 
     def is_acc(e):
         e = e.strip() if e.kind in ('call', 'cast') else e
@@ -59,6 +59,7 @@ def _upvar_uses(cb, k):
                 tgt = eb.place(lhs['l'], tuple(proj_key_(p) for p in lhs['p']), 0, (i, si))
                 if tgt.kind == 'place' and tgt.root == ('upvar', k) and not tgt.fields:
                     res['writes'].append(s['ln'])
+                    res['write_blocks'].append(i)
                     continue
             rv = s['rv']
             if rv['k'] == 'bin':
@@ -145,6 +146,18 @@ def rule_barrier(ctx, R, path, who):
         return 0
     for local, d in acc.items():
         for wcb, wbb, wreads in d['writers']:
+            # the running maximum ranges over ALL distances of the stream: its update is not gated by the
+            # acceptance test against max_distance
+            for k in range(0, 8):
+                u = _upvar_uses(wcb, k)
+                for wb in u['write_blocks']:
+                    gated = [c for c in path_conditions(wcb, wb) if c.cmp() and (
+                        c.cmp()[1].has_field('max_distance') or c.cmp()[2].has_field('max_distance'))]
+                    n += 1
+                    ctx.check(not gated, R, wcb, who + ':running-max-over-all-distances',
+                              'update of the running maximum is not conditioned on the acceptance test',
+                              'the running maximum distance is only updated under %s: "largest distance seen" no '
+                              'longer ranges over the whole stream, which changes every vote weight' % gated)
             n += 1
             ctx.check(not wreads, R, wcb, who + ':running-max-not-used-while-streaming',
                       'the updating closure only compares and updates the running maximum',
@@ -292,6 +305,32 @@ def rule_topn_order(ctx, R):
             ctx.check(d == 'desc' and f == 'weight', R, cb, 'topn:sorted-by-decreasing-weight',
                       'comparator: %s on %s' % (d, f),
                       'the per-query winners are sorted %s on `%s` (expected descending weight)' % (d, f), c.ln)
+    for c in sc:
+        # the sort is executed for every query: unconditional inside its loop
+        hs = [h for h, blks in b.loops().items() if c.bb in blks]
+        n += 1
+        okl = bool(hs)
+        detail = ''
+        if okl:
+            h = max(hs, key=lambda x: len(b.loops()[x]) * -1)
+            nx = [x for x in b.find_calls('std::iter::Iterator::next') if x.bb in b.loops()[h]]
+            start = None
+            for x in nx:
+                tb = b.blocks[x.target]['t']
+                if tb['k'] == 'switch':
+                    for tg in set(tg for _, tg in b.switch_edges(x.target)):
+                        if tg in b.diverging():
+                            continue
+                        cnd = Cond(b, x.target, tg)
+                        if cnd.kind == 'discr' and cnd.variants == {'Some'}:
+                            start, hdr = tg, x.bb
+            if start is not None:
+                r = count_on_paths(b, start, [hdr], [c.bb])
+                detail = 'per query %s' % (r,)
+                okl = r == (1, 1)
+        ctx.check(okl, R, b, 'topn:every-query-list-is-sorted', detail,
+                  'the per-query winners are sorted only on some paths (%s): lists that skip the sort come out in '
+                  'hash-map order' % detail, c.ln)
     for t in tr:
         n += 1
         ok = any(b.dominates(c.bb, t.bb) for c in sc)
@@ -405,7 +444,39 @@ def rule_hungarian(ctx, R):
                   'result derives from the kuhn_munkres solution',
                   'the returned winners do not derive from the kuhn_munkres solution on every path (greedy / '
                   'first-come choice possible)')
-    # the matrix handed to kuhn_munkres is the one the weights were written to
+    # every element of the stream registers its query row, its track column and its weight
+    ebx = ExprBuilder(b)
+    for h, blks in b.loops().items():
+        nx = [x for x in b.find_calls('std::iter::Iterator::next') if x.bb in blks and ebx.arg(x, 0).has_place(
+            root=('param', 2))]
+        if not nx:
+            continue
+        x = nx[0]
+        start = None
+        tb = b.blocks[x.target]['t']
+        if tb['k'] == 'switch':
+            for tg in set(tg for _, tg in b.switch_edges(x.target)):
+                if tg in b.diverging():
+                    continue
+                cnd = Cond(b, x.target, tg)
+                if cnd.kind == 'discr' and cnd.variants == {'Some'}:
+                    start = tg
+        if start is None:
+            continue
+        marks = {'row/column lookup': [c.bb for c in b.find_calls('std::collections::HashMap::get',
+                                                                   'std::collections::HashMap::entry',
+                                                                   'std::collections::HashMap::contains_key',
+                                                                   'std::collections::HashMap::get_mut') if c.bb in blks],
+                 'matrix write': [c.bb for c in b.find_calls('get_mut') if c.bb in blks and 'Matrix' in c.callee]}
+        for what, ms in marks.items():
+            r = count_on_paths(b, start, [x.bb], ms)
+            n += 1
+            want = 'at least 1' if what.startswith('row') else (1, 1)
+            ctx.check((r is not None and r[0] >= 1) if what.startswith('row') else r == want, R, b, 'hungarian:every-stream-element-registers-' + what.split()[0],
+                      'per element %s' % (r,),
+                      'an element of the distance stream can be skipped before its %s (per element %s, expected %s): a '
+                      'query that only has such elements disappears from the result instead of winning itself' % (
+                          what, r, want))
     return n
 
 
